@@ -74,6 +74,10 @@ def observe(arg):
                             "lam_of_253": dec.to_dec(float(nsf.neutron_wavelength(25.3)))})
             elif kind == "comp":
                 out += _comp(t, T)
+            elif kind == "d2o":
+                out += _d2o(t, T)
+            elif kind == "fasta_tables":
+                out += _fasta_tables(t)
         except Exception as e:
             import traceback
             out.append({"ev": "harness_exc", "id": t["id"], "exc": "%s: %s" % (type(e).__name__, str(e)[:200]),
@@ -207,3 +211,70 @@ def _comp(t, T):
                     "direct": {"re": dec.enc(d[0]), "im": dec.enc(d[1]), "inc": dec.enc(d[2])} if d[0] is not None else {"re": {"k": "none"}, "im": {"k": "none"}, "inc": {"k": "none"}},
                     "shape_ok": bool(shape_ok)})
     return evs
+
+
+def _o2(res):
+    return {"re": dec.enc(res[0]), "im": dec.enc(res[1])}
+
+
+def _d2o_event(idv, mol, lam, d, v, molecule=None, table=None):
+    """mol: labile Formula with density."""
+    import periodictable as P
+    from periodictable import nsf
+    kw = {"wavelength": lam} if lam is not None else {}
+    L = lam if lam is not None else 1.798
+    ev = {"ev": "d2o", "id": idv, "ps": parts_of(mol), "rho": dec.to_dec(mol.density), "lam": dec.to_dec(L),
+          "d": dec.to_dec(d), "v": dec.to_dec(v)}
+    t = table if table is not None else P.elements
+    ev["hpart"] = parts_of(P.formula(t.H))[0]
+    ev["dpart"] = parts_of(P.formula(t.D))[0]
+    H2O, D2O = P.formula("H2O@0.9982n"), P.formula("D2O@0.9982n")
+    ev["psH2O"], ev["rhoH2O"] = parts_of(H2O), dec.to_dec(H2O.density)
+    ev["psD2O"], ev["rhoD2O"] = parts_of(D2O), dec.to_dec(D2O.density)
+    f = lambda vv, dd: nsf.D2O_sld(mol, volume_fraction=vv, D2O_fraction=dd, **kw)
+    ev["o10"], ev["o11"], ev["o1d"] = _o2(f(1.0, 0.0)), _o2(f(1.0, 1.0)), _o2(f(1.0, d))
+    ev["o00"], ev["o01"], ev["o0d"] = _o2(f(0.0, 0.0)), _o2(f(0.0, 1.0)), _o2(f(0.0, d))
+    ev["ovd"] = _o2(f(v, d))
+    ds, ms = nsf.D2O_match(mol, **kw)
+    ev["dstar"], ev["msld"] = dec.enc(ds), dec.enc(ms)
+    if molecule is not None:
+        ev["mol"] = {"match": dec.enc(molecule.D2Omatch), "sld": dec.enc(molecule.sld), "Dsld": dec.enc(molecule.Dsld),
+                     "D2Osld": dec.enc(molecule.D2Osld(volume_fraction=v, D2O_fraction=d))}
+    return ev
+
+
+def _d2o(t, T):
+    import periodictable as P
+    g, kw = _formula(t, T)
+    if any(p["kind"] != "const" and p["kind"] != "table" for p in parts_of(g)):
+        return []          # an atom without usable neutron data: outside the property's quantifier
+    mol = None
+    if t.get("molecule"):
+        from periodictable import fasta
+        # fasta.Molecule takes the NATURAL density; give both the same thing
+        mol = fasta.Molecule("m", g, density=g.natural_density)
+    try:
+        return [_d2o_event(t["id"], g, t.get("wavelength"), t["d"], t["v"], molecule=mol)]
+    except Exception as e:
+        return [{"ev": "d2o", "id": t["id"], "exc": "%s: %s" % (type(e).__name__, str(e)[:100])}]
+
+
+def _fasta_tables(t):
+    from periodictable import fasta
+    import random
+    rng = random.Random(t["seed"])
+    out = []
+    tabs = {"aa": fasta.AMINO_ACID_CODES, "na": fasta.NUCLEIC_ACID_COMPONENTS, "ch": fasta.CARBOHYDRATE_RESIDUES,
+            "lipid": fasta.LIPIDS, "rnab": fasta.RNA_BASES, "dnab": fasta.DNA_BASES, "rna": fasta.RNA_CODES, "dna": fasta.DNA_CODES}
+    for tn, tab in sorted(tabs.items()):
+        for code, m in sorted(tab.items(), key=lambda kv: str(kv[0])):
+            f = m.labile_formula
+            if not f.atoms or not f.density:
+                continue
+            d, v = rng.choice([0.0, 0.25, 0.5, 1.0, 0.42]), rng.choice([0.0, 0.25, 0.5, 1.0, 0.1])
+            idv = "fasta:%s:%s" % (tn, code)
+            try:
+                out.append(_d2o_event(idv, f, None, d, v, molecule=m))
+            except Exception as e:
+                out.append({"ev": "d2o", "id": idv, "exc": "%s: %s" % (type(e).__name__, str(e)[:100])})
+    return out
